@@ -14,7 +14,7 @@ use simple_dns::Packet;
 
 pub fn meta() -> Meta {
     Meta {
-        rule: "every accepted input b: P = parse(b); build_bytes_vec(P) and build_bytes_vec_compressed(P) must succeed, their outputs must parse, and the \
+        rule: "every accepted input b: P = parse(b); build_bytes_vec(P), build_bytes_vec_compressed(P) and the writer-based write_to / write_compressed_to through a writer that accepts 3 bytes per call must succeed, their outputs must parse, and the \
 re-parsed packets must equal P in every observable field (model comparison: id, flags, opcode, rcode, EDNS, questions, every record field). Inputs: \
 reference-encoded messages with arbitrary legal (non-canonical) compression incl. pointers inside RDATA of non-compressible types, unknown types, \
 empty RDATA for every type, OPT at any position, every 16-bit header word x small bodies, RDLENGTH-stretched records, accepted members of the C01 \
@@ -35,9 +35,15 @@ pub fn check_bytes(ctx: &mut Ctx, family: &str, idx: u64, b: &[u8]) -> bool {
         let obs = bridge::observe(&p);
         let plain = p.build_bytes_vec().map_err(|e| format!("{:?}", e));
         let comp = p.build_bytes_vec_compressed().map_err(|e| format!("{:?}", e));
-        Some((obs, plain, comp))
+        // the writer-based entry points, through a writer that takes at most 3 bytes per call and is interrupted now and
+        // then (what a socket or a chunking adapter may legitimately do)
+        let mut w1 = super::c04::ShortWriter { buf: Vec::new(), pos: 0, calls: 0 };
+        let streamed = p.write_to(&mut w1).map(|_| w1.buf).map_err(|e| format!("{:?}", e));
+        let mut w2 = super::c04::ShortWriter { buf: Vec::new(), pos: 0, calls: 0 };
+        let streamed_comp = p.write_compressed_to(&mut w2).map(|_| w2.buf).map_err(|e| format!("{:?}", e));
+        Some((obs, plain, comp, streamed, streamed_comp))
     });
-    let (obs, plain, comp) = match r {
+    let (obs, plain, comp, streamed, streamed_comp) = match r {
         Err(pn) => {
             // a panic in parse is C01's; a panic while re-serialising is ours
             if monitor::guard(|| Packet::parse(b).is_ok()).is_ok() {
@@ -64,7 +70,7 @@ pub fn check_bytes(ctx: &mut Ctx, family: &str, idx: u64, b: &[u8]) -> bool {
             ctx.add(&format!("accepted_records_{}", type_name(r.rtype)), 1);
         }
     }
-    for (what, out) in [("build_bytes_vec", plain), ("build_bytes_vec_compressed", comp)] {
+    for (what, out) in [("build_bytes_vec", plain), ("build_bytes_vec_compressed", comp), ("write_to/short-writes", streamed), ("write_compressed_to/short-writes", streamed_comp)] {
         let out = match out {
             Ok(o) => o,
             Err(e) => {
